@@ -24,7 +24,7 @@ def utility_lists(t):
 def has_gliding_user_cold_utility(prob):
     """A user utility usable as cold utility.  Every such utility has a glide when targeting runs: an isothermal one is given the
     artificial DT_PHASE_CHANGE (0.1 K) glide, which is "long" for a stream narrower than 0.1 K."""
-    return any(u["type"] in ("Cold", "Both") for u in prob["utilities"])
+    return any(u["type"] in ("Cold", "Both") and u.get("active", True) for u in prob["utilities"])     # a switched-off row is in no ladder
 
 
 def is_d24(prob, k, kind, clause, t, hu, cu, short_zones):
@@ -108,6 +108,21 @@ def gen_cases(ctx, n):
                       dict(zone="N", name="NeedleH", t_supply=t0 - 10.0, t_target=t0 - 20.0, heat_flow=0.4, dt_cont=5.0, htc=1.0)]
             prob = dict(streams=ss, utilities=prob["utilities"] if ctx.rng.random() < 0.5 else [])
             m = dict(zones=1, shapes=["needle_at_extreme"], regime=m["regime"])
+        if ctx.rng.random() < 0.12:
+            # rows switched off with `active: false`: a stream row is analysed all the same (nothing reads the flag), a utility row is
+            # left out of every ladder -- neither may change which default utilities are needed
+            cold = [x for x in prob["streams"] if x["t_supply"] < x["t_target"]]
+            hot = [x for x in prob["streams"] if x["t_supply"] > x["t_target"]]
+            if cold and ctx.rng.random() < 0.5:
+                max(cold, key=lambda x: x["t_target"])["active"] = False
+            elif hot:
+                min(hot, key=lambda x: x["t_target"])["active"] = False
+            lo = min(min(x["t_supply"], x["t_target"]) for x in prob["streams"])
+            hi = max(max(x["t_supply"], x["t_target"]) for x in prob["streams"])
+            prob["utilities"] = prob["utilities"] + [
+                dict(name="OffCW", type="Cold", t_supply=lo - 40.0, t_target=lo - 40.0, heat_flow=0.0, dt_cont=5.0, htc=1.0, price=1.0, active=False),
+                dict(name="OffST", type="Hot", t_supply=hi + 40.0, t_target=hi + 40.0, heat_flow=0.0, dt_cont=5.0, htc=1.0, price=50.0, active=False)]
+            m = dict(m, shapes=m["shapes"] + ["inactive_rows"])
         probs.append((prob, m))
     return probs
 
